@@ -69,11 +69,17 @@ func ms(n int) time.Duration { return time.Duration(n) * time.Millisecond }
 
 // startE2E starts the intercepting proxy and returns the client's TLS connection to it, ALPN h2
 // negotiated, tunnel towards `target` (the raw TLS origin).
-func (r *Runner) startE2E(c *E2E, target string) (net.Conn, error) {
+func (r *Runner) startE2E(pp Params, target string) (net.Conn, error) {
+	c := pp.E2E
 	mc, err := mitmSetup()
 	if err != nil {
 		return nil, fmt.Errorf("mitm configuration: %w", err)
 	}
+	// the options of this case (a child process runs one case at a time; relays of earlier cases keep
+	// the Config value they were started with)
+	hc := relayConfig(pp)
+	hc.AllowedHostsFilter = func(string) bool { return true }
+	mc.SetH2Config(hc)
 	p := &martian.Proxy{
 		MITMConfig:              mc,
 		WithoutWarning:          true,
